@@ -11,9 +11,17 @@ Every run:
      of the statement (A @ X, X @ A, inv/solve, logdet/slogdet, diag, trace, exp, pow/sqrt/isqrt,
      cholesky, plu — algorithm argument OMITTED, Auto(), and a concrete admissible class)
        * peak additional memory (tracemalloc, numpy reports its buffers there) must be
-         ≤ 8 × itemsize × ((rows + cols)·b + leafStorage) + PY_ALLOWANCE, where `rows`, `cols`, `leafStorage` (and the
-         list `allocs`) are computed by the LEAN model (lake env lean --run DriverC19.lean) for the
-         shape tree of the operator — the right-hand side of theorem C19_matmat_rows_cols;
+         ≤ itemsize × MODEL + allowance, where MODEL is computed by the LEAN definitions
+         (lake env lean --run DriverC19.lean) — no blanket slack:
+           A @ X          MODEL = Op.peakMM(tree of A, b)            (the live-set model of Model/Cost.lean; theorem
+                                                                      C19_matmat_peak bounds it by lvl·n·b + leafStorage)
+           X @ A          MODEL = Op.peakMM(tree of A, b) + 2·n·b     (the transposed / conjugated copies of the operand)
+           f(A) [@ V]     MODEL = Op.ruleCost(f, tree of A) + Op.peakMM(tree of the RESULT operator, b)
+                                                                      (theorem C19_rule_cost bounds ruleCost by
+                                                                       7·Σ factor sizes + 3·linSize; the result operator's
+                                                                       tree is read off the real object)
+         and, independently of every model, must stay below a quarter of the dense n × n matrix;
+       * the arrays the RESULT operator holds (beyond those of A) must fit into Op.ruleCost;
        * every `to_dense()` / `Dense(...)` during the call is logged (monkeypatch in this process):
          an array with ≥ n²/4 entries is directly a failing input;
        * every rule of the family entered ON THE OPERATOR ITSELF is logged and compared with the
@@ -39,9 +47,10 @@ import common
 
 MODULE = "ColaVerif.Properties.C19"
 TRANSLATOR = os.path.join(common.ROOT, "harness", "translators", "dump_structural.py")
-SLACK = 8                 # fixed multiple of the model bound (number of simultaneously live arrays)
+SLACK = 8                 # ONLY for calls whose result operator has a class outside the shape language (counted in the evidence)
 PY_ALLOWANCE = 64 * 1024  # bytes: Python objects (dispatch caches, parametric classes) traced alongside
 NUMPY_BUFFERS = 192 * 1024  # bytes: ufunc iteration buffers (8192 elements each) that numpy allocates internally
+BS = (1, 3, 16)           # numbers of columns of the operand
 MAX_REPORTS = 6           # failing inputs reported before the stream stops
 RATIO_MIN = 1000          # statement: n² ≥ 1000 × factor storage
 
@@ -55,13 +64,15 @@ PROVISIONAL_KNOWN = {}
 # operator expressions (own tiny language: payloads are random, only the structure matters)
 #   ("dense", m, flavour)   flavour: "gen" well conditioned | "psd" cola.PSD(G Gᵀ/m + I) | "sym" cola.SelfAdjoint
 #   ("diag", n) positive | ("eye", n) | ("scalar", c, n)
+#   ("tri", m) lower Triangular | ("sparse", m) Sparse (diagonal + one off-diagonal band, 2m entries) | ("tridiag", n)
+#   ("perm", n) Permutation | ("house", n) Householder
 #   ("kron", e…) | ("kronsum", e…) | ("bdiag", [e…], [mult…]) | ("sum", e…) | ("prod", e…) | ("smul", c, e)
 # ------------------------------------------------------------------------------------------
 def size_of(e):
     t = e[0]
     if t == "dense":
         return e[1]
-    if t in ("diag", "eye"):
+    if t in ("diag", "eye", "tri", "sparse", "tridiag", "perm", "house"):
         return e[1]
     if t == "scalar":
         return e[2]
@@ -81,9 +92,13 @@ def size_of(e):
 
 def leaf_storage(e):
     t = e[0]
-    if t == "dense":
+    if t in ("dense", "tri"):
         return e[1] * e[1]
-    if t in ("diag", "eye", "scalar"):
+    if t == "sparse":
+        return 2 * e[1]          # stored entries
+    if t == "house":
+        return e[1]              # the vector
+    if t in ("diag", "eye", "scalar", "tridiag", "perm"):
         return 0
     if t == "bdiag":
         return sum(leaf_storage(x) for x in e[1])
@@ -95,10 +110,14 @@ def leaf_storage(e):
 def factor_storage(e):
     """what the operator stores: dense leaves and diagonal vectors"""
     t = e[0]
-    if t == "dense":
+    if t in ("dense", "tri"):
         return e[1] * e[1]
-    if t == "diag":
+    if t in ("diag", "perm", "house"):
         return e[1]
+    if t == "tridiag":
+        return 3 * e[1]
+    if t == "sparse":
+        return 6 * e[1]          # data, row and column indices of 2m entries
     if t in ("eye", "scalar"):
         return 1
     if t == "bdiag":
@@ -116,6 +135,12 @@ def shape_tree(e):
         return ["ann", d] if e[2] in ("psd", "sym") else d
     if t == "diag":
         return ["diag", e[1]]
+    if t == "tri":
+        return ["tri", e[1], e[1]]
+    if t == "sparse":
+        return ["sparse", e[1], e[1], sparse_coords(e[1])]
+    if t in ("tridiag", "perm", "house"):
+        return [t, e[1]]
     if t == "eye":
         return ["eye", e[1]]
     if t == "scalar":
@@ -127,10 +152,17 @@ def shape_tree(e):
     return [t] + [shape_tree(x) for x in e[1:]]
 
 
+def sparse_coords(m):
+    """the pattern of the Sparse leaves: the diagonal and the cyclic super-diagonal"""
+    return [[i, i] for i in range(m)] + [[i, (i + 1) % m] for i in range(m)]
+
+
 def show(e):
     t = e[0]
     if t == "dense":
         return f"D{e[1]}" + {"gen": "", "psd": "ᵖ", "sym": "ˢ"}[e[2]]
+    if t in ("tri", "sparse", "tridiag", "perm", "house"):
+        return {"tri": "Tri", "sparse": "Sp", "tridiag": "Tridiag", "perm": "Perm", "house": "House"}[t] + str(e[1])
     if t == "diag":
         return f"Diag{e[1]}"
     if t == "eye":
@@ -150,7 +182,7 @@ def skeleton(e):
     t = e[0]
     if t == "dense":
         return "D" + e[2]
-    if t in ("diag", "eye", "scalar"):
+    if t in ("diag", "eye", "scalar", "tri", "sparse", "tridiag", "perm", "house"):
         return t
     if t == "bdiag":
         return "bdiag(" + ",".join(skeleton(x) for x in e[1]) + ")"
@@ -166,7 +198,8 @@ class Builder:
     def build(self, e, path="r"):
         import numpy as np
         import cola
-        from cola.ops import BlockDiag, Dense, Diagonal, Identity, Kronecker, KronSum, ScalarMul
+        from cola.ops import (BlockDiag, Dense, Diagonal, Householder, Identity, Kronecker, KronSum, Permutation, ScalarMul, Sparse,
+                              Triangular, Tridiagonal)
         t = e[0]
         rng = np.random.default_rng([self.seed, zlib.crc32(path.encode())])
         if t == "dense":
@@ -179,6 +212,22 @@ class Builder:
             return Dense(G + 2.0 * np.eye(m))
         if t == "diag":
             return Diagonal(1.0 + rng.random(e[1]))
+        if t == "tri":
+            m = e[1]
+            return Triangular(np.tril(rng.standard_normal((m, m)) / np.sqrt(m)) + 2.0 * np.eye(m), lower=True)
+        if t == "sparse":
+            m = e[1]
+            co = np.array(sparse_coords(m), dtype=np.int64)
+            data = np.concatenate([2.0 + rng.random(m), 0.3 * rng.standard_normal(m)])
+            return Sparse(data, co[:, 0].copy(), co[:, 1].copy(), (m, m))
+        if t == "tridiag":
+            n = e[1]
+            return Tridiagonal(0.3 * rng.standard_normal(n - 1), 2.0 + rng.random(n), 0.3 * rng.standard_normal(n - 1))
+        if t == "perm":
+            return Permutation(rng.permutation(e[1]).astype(np.int64), np.float64)
+        if t == "house":
+            v = rng.standard_normal((e[1], 1))
+            return Householder(v / np.linalg.norm(v), beta=2.0)
         if t == "eye":
             return Identity((e[1], e[1]), np.float64)
         if t == "scalar":
@@ -212,8 +261,10 @@ def tiny(e, n=None):
     t = e[0]
     if t == "dense":
         return ("dense", 2, e[2])
-    if t in ("diag", "eye"):
+    if t in ("diag", "eye", "tridiag", "perm", "house"):
         return (t, n or 2)
+    if t in ("tri", "sparse"):
+        return (t, 2)
     if t == "scalar":
         return ("scalar", e[1], n or 2)
     if t == "bdiag":
@@ -221,7 +272,7 @@ def tiny(e, n=None):
     if t == "smul":
         return ("smul", e[1], tiny(e[2], n))
     if t in ("sum", "prod"):
-        comp = [tiny(x) for x in e[1:] if x[0] not in ("diag", "eye", "scalar")]
+        comp = [tiny(x) for x in e[1:] if x[0] not in ("diag", "eye", "scalar", "tridiag", "perm", "house")]
         target = size_of(comp[0]) if comp else (n or 2)
         return (t, ) + tuple(tiny(x, target) for x in e[1:])
     return (t, ) + tuple(tiny(x) for x in e[1:])
@@ -296,6 +347,28 @@ def zoo(ctx, rnd=0):
     add(("prod", ("bdiag", [d(m1), d(m2_)], [q1, q2]), ("diag", m1 * q1 + m2_ * q2)), "mm", "inv")
     add(("prod", ("diag", a * b), ("diag", a * b), ("scalar", 3.0, a * b)), "mm", "logdet")
     add(("prod", ("diag", a * b), ("diag", a * b)), "mm", "rmm", "inv")
+    # round 2: the leaf kinds whose cost model was proved about but never compared with running code — Triangular, Sparse,
+    # Tridiagonal, Permutation, Householder — as Kronecker factors, as blocks, in sums / products, and on their own
+    a, b = r(46, 50), r(46, 50)
+    add(("kron", ("tri", a), d(b)), "mm", "inv")
+    add(("kron", ("perm", a), d(b, "psd")), "mm", "inv")
+    add(("kron", ("tridiag", a), d(b)), "mm")
+    add(("kron", ("sparse", a), d(b), ("house", 3)) if big else ("kron", ("sparse", a), d(b)), "mm")
+    add(("kron", ("house", a), ("tri", b)), "mm")
+    q = [r(20, 26), r(20, 26), r(28, 34), r(20, 26), r(20, 26)]
+    add(("bdiag", [("tri", q[0]), ("tridiag", q[1]), ("perm", q[2]), ("sparse", q[3]), ("house", q[4])],
+         [r(24, 28), r(20, 24), r(16, 20), r(20, 24), r(16, 20)]), "mm")
+    a, b = r(78, 82), r(78, 82)
+    add(("sum", ("kron", d(a), d(b)), ("tridiag", a * b), ("perm", a * b)), "mm")
+    a, b = r(64, 68), r(64, 68)
+    add(("prod", ("perm", a * b), ("kron", ("tri", a), d(b)), ("house", a * b)), "mm")
+    a, b = r(56, 60), r(56, 60)
+    add(("prod", ("perm", a * b), ("kron", ("tri", a), d(b))), "mm", "inv")
+    nn = 4096 if big else r(3100, 3500)
+    add(("tridiag", nn), "mm")
+    add(("perm", nn), "mm")
+    add(("house", nn), "mm")
+    add(("sparse", 8192 if big else r(6200, 6600)), "mm")     # stores 6 numbers per row: n ≥ 6000 for n² ≥ 1000 × storage
     # the plain parametrised kinds
     nn = 4096 if big else r(2500, 3500)
     add(("diag", nn), "mm", "rmm", "inv", "diag", "unary", "chol", "plu")
@@ -317,9 +390,12 @@ def zoo(ctx, rnd=0):
 # public calls
 # ------------------------------------------------------------------------------------------
 def call_table():
-    """name -> dict(flag, fn (skeleton function for the Lean rule level, None for A @ X),
-    run(A, alg, V) -> array/scalar result, b, algs: list of (presence label, factory|None))"""
-    import numpy as np
+    """name -> dict(flag, fn (skeleton function of the Lean rule level, None for A @ X / X @ A),
+    build(A, alg, V) -> the operator (or tuple, or array / scalar) the public call returns,
+    pick(result) -> the operator of the result that is applied afterwards (None: nothing is applied),
+    b = columns of the operand the picked operator is applied to, algs: list of (presence label, factory|None)).
+    The measured thunk is `build` followed by `pick(result) @ V[:, :b]`; `solve` applies inside cola."""
+    import numpy as np  # noqa: F401
     import cola
     L = cola.linalg
     dec = sys.modules["cola.linalg.decompositions.decompositions"]
@@ -331,35 +407,61 @@ def call_table():
         return () if alg is None else (alg, )
 
     T = {}
+    ident = lambda r: r  # noqa: E731
+    nothing = lambda r: None  # noqa: E731
 
-    def reg(name, flag, fn, run, b, algs):
-        T[name] = {"flag": flag, "fn": fn, "run": run, "b": b, "algs": algs}
+    def reg(name, flag, fn, build, b, algs, pick=ident, vec=True, shadow=None):
+        T[name] = {"flag": flag, "fn": fn, "build": build, "pick": pick, "b": b, "algs": algs, "vec": vec, "shadow": shadow}
 
     none = [("n/a", None)]
     inv_algs = lambda z: [("omitted", None), ("Auto", Auto), ("LU", LU)] + ([("Cholesky", Chol)] if "psd" in z["flags"] else [])  # noqa: E731
     tr_algs = lambda z: [("omitted", None), ("Auto", Auto), ("Exact", Exact)]  # noqa: E731
     un_algs = lambda z: [("omitted", None), ("Auto", Auto), ("Eigh", Eigh) if ("psd" in z["flags"] or "sym" in z["flags"]) else ("Eig", Eig)]  # noqa: E731
-    for b in (1, 3):
-        reg(f"A @ X (b={b})", "mm", None, lambda A, alg, V: A @ V, b, lambda z: none)
-        reg(f"X @ A (b={b})", "rmm", None, lambda A, alg, V: V.T @ A, b, lambda z: none)
-    reg("A @ x (vector)", "mm", None, lambda A, alg, V: A @ V[:, 0], 1, lambda z: none)
-    reg("inv(A) @ V", "inv", "inv", lambda A, alg, V: L.inv(A, *alg_args(alg)) @ V, 3, inv_algs)
-    reg("solve(A, v)", "inv", "inv", lambda A, alg, V: L.solve(A, V[:, 0], *alg_args(alg)), 1, inv_algs)
-    reg("logdet(A)", "logdet", "slogdet", lambda A, alg, V: L.logdet(A, *alg_args(alg)), 1, inv_algs)
-    reg("slogdet(A)", "logdet", "slogdet", lambda A, alg, V: L.slogdet(A, *alg_args(alg))[1], 1, inv_algs)
-    reg("diag(A, 0)", "diag", "diag", lambda A, alg, V: L.diag(A, 0, *alg_args(alg)), 1, tr_algs)
-    reg("trace(A)", "diag", "trace", lambda A, alg, V: L.trace(A, *alg_args(alg)), 1, tr_algs)
-    reg("exp(A) @ v", "exp", "exp", lambda A, alg, V: L.exp(A, *alg_args(alg)) @ V[:, 0], 1, un_algs)
-    reg("pow(A, 0.5) @ V", "pow", "pow", lambda A, alg, V: L.pow(A, 0.5, *alg_args(alg)) @ V, 3, un_algs)
-    reg("sqrt(A) @ v", "pow", "pow", lambda A, alg, V: L.sqrt(A, *alg_args(alg)) @ V[:, 0], 1, un_algs)
-    reg("isqrt(A) @ v", "pow", "pow", lambda A, alg, V: L.isqrt(A, *alg_args(alg)) @ V[:, 0], 1, un_algs)
+    for b in BS:
+        # b = 16: the operand (n·b·8 B ≈ 0.3–0.8 MB) dominates the fixed allowance, so the live-set model is really compared
+        reg(f"A @ X (b={b})", "mm", None, lambda A, alg, V: A, b, lambda z: none, vec=False)
+        if b <= 3:
+            reg(f"X @ A (b={b})", "rmm", None, lambda A, alg, V: A, b, lambda z: none, vec=False)
+    reg("A @ x (vector)", "mm", None, lambda A, alg, V: A, 1, lambda z: none)
+    reg("inv(A) @ V", "inv", "inv", lambda A, alg, V: L.inv(A, *alg_args(alg)), 3, inv_algs, vec=False)
+    # solve applies inv(A) inside cola: the tree of the result operator is read off a second, unmeasured inv(A, alg)
+    reg("solve(A, v)", "inv", "inv", lambda A, alg, V: L.solve(A, V[:, 0], *alg_args(alg)), 1, inv_algs, pick=nothing,
+        shadow=lambda A, alg: L.inv(A, *alg_args(alg)))
+    reg("logdet(A)", "logdet", "slogdet", lambda A, alg, V: L.logdet(A, *alg_args(alg)), 1, inv_algs, pick=nothing)
+    reg("slogdet(A)", "logdet", "slogdet", lambda A, alg, V: L.slogdet(A, *alg_args(alg))[1], 1, inv_algs, pick=nothing)
+    reg("diag(A, 0)", "diag", "diag", lambda A, alg, V: L.diag(A, 0, *alg_args(alg)), 1, tr_algs, pick=nothing)
+    reg("trace(A)", "diag", "trace", lambda A, alg, V: L.trace(A, *alg_args(alg)), 1, tr_algs, pick=nothing)
+    reg("exp(A) @ v", "exp", "exp", lambda A, alg, V: L.exp(A, *alg_args(alg)), 1, un_algs)
+    reg("pow(A, 0.5) @ V", "pow", "pow", lambda A, alg, V: L.pow(A, 0.5, *alg_args(alg)), 3, un_algs, vec=False)
+    reg("sqrt(A) @ v", "pow", "pow", lambda A, alg, V: L.sqrt(A, *alg_args(alg)), 1, un_algs)
+    reg("isqrt(A) @ v", "pow", "pow", lambda A, alg, V: L.isqrt(A, *alg_args(alg)), 1, un_algs)
+    # integer exponents: 0 → I, 1..9 → lazy Product, −1 → inv, anything else → apply_unary(x ↦ x**k) — all of them have to
+    # be taken factor by factor on a Kronecker product (the exponent CLASS int is a lattice element of its own)
+    for k in (2, -1, -2, 10):
+        reg(f"pow(A, {k}) @ v", "pow", "pow", lambda A, alg, V, k=k: L.pow(A, k, *alg_args(alg)), 1, un_algs)
     # kinds with an apply_unary rule (BlockDiag, Diagonal, Identity, ScalarMul): exp / log / sqrt go through it
-    reg("exp(A) @ v [apply_unary]", "unary", "exp", lambda A, alg, V: L.exp(A, *alg_args(alg)) @ V[:, 0], 1, un_algs)
-    reg("log(A) @ v [apply_unary]", "unary", "unary", lambda A, alg, V: L.log(A, *alg_args(alg)) @ V[:, 0], 1, un_algs)
-    reg("sqrt(A) @ v [apply_unary]", "unary", "pow", lambda A, alg, V: L.sqrt(A, *alg_args(alg)) @ V[:, 0], 1, un_algs)
-    reg("cholesky(A) @ v", "chol", "chol", lambda A, alg, V: dec.cholesky(A) @ V[:, 0], 1, lambda z: none)
-    reg("plu(A): L @ v", "plu", "plu", lambda A, alg, V: dec.plu(A)[1] @ V[:, 0], 1, lambda z: none)
+    reg("exp(A) @ v [apply_unary]", "unary", "exp", lambda A, alg, V: L.exp(A, *alg_args(alg)), 1, un_algs)
+    reg("log(A) @ v [apply_unary]", "unary", "unary", lambda A, alg, V: L.log(A, *alg_args(alg)), 1, un_algs)
+    reg("sqrt(A) @ v [apply_unary]", "unary", "pow", lambda A, alg, V: L.sqrt(A, *alg_args(alg)), 1, un_algs)
+    reg("cholesky(A) @ v", "chol", "chol", lambda A, alg, V: dec.cholesky(A), 1, lambda z: none)
+    reg("plu(A): L @ v", "plu", "plu", lambda A, alg, V: dec.plu(A), 1, lambda z: none, pick=lambda r: r[1])
     return T
+
+
+def make_thunk(call, cname, A, alg, V, hold):
+    """the measured public call; `hold` receives the operator that was applied (for its shape tree)"""
+    b = call["b"]
+
+    def thunk():
+        if cname.startswith("X @ A"):
+            return V[:, :b].T @ A
+        res = call["build"](A, alg, V)
+        op = call["pick"](res)
+        hold["op"] = op
+        if op is None:
+            return res
+        return op @ (V[:, 0] if call["vec"] else V[:, :b])
+    return thunk
 
 
 # ------------------------------------------------------------------------------------------
@@ -511,33 +613,155 @@ def measure(probe, thunk, top):
 
 
 def real_leaf_storage(A):
-    """Σ dense sizes of the Dense leaves of the REAL operator"""
-    from cola.ops import Dense
+    """Σ of what the leaves of the REAL operator store, in the units of Op.leafStorage: dense sizes of Dense / Triangular
+    leaves, stored entries of Sparse leaves, the vector of a Householder reflector"""
+    from cola.ops import Dense, Householder, Sparse
     if isinstance(A, Dense):
         return int(A.A.size)
+    if isinstance(A, Sparse):
+        return int(A.data.size)
+    if isinstance(A, Householder):
+        return int(A.vec.size)
     tot = 0
     for M in getattr(A, "Ms", ()):
         tot += real_leaf_storage(M)
     return tot
 
 
-def lean_models(cases):
+def real_shape(op, depth=0):
+    """the shape tree (language of lean/DriverC19.lean) of a REAL cola operator, or None when a class outside the language
+    occurs.  Used for the RESULT operators of the rule families (inverse / function / factor of a structured operator).
+    TriangularInv (a triangular solve: one result array, plus LAPACK's copy of the right-hand side) is given the cost class
+    of a Triangular product; Transpose / Adjoint of a leaf the cost class of a one-term Sum over the transposed leaf (the
+    conjugated / transposed copies of operand and result)."""
+    import numpy as np  # noqa: F401
+    from cola import ops
+    name = type(op).__name__.split("[")[0]
+    r, c = (int(op.shape[0]), int(op.shape[1]))
+    if depth > 12:
+        return None
+    if name in ("Triangular", "TriangularInv"):
+        return ["tri", r, c]
+    if name == "Dense":
+        return ["dense", r, c]
+    if name == "Sparse":
+        return ["sparse", r, c, [[int(i), int(j)] for i, j in zip(op.row_indices, op.col_indices)]]
+    if name == "ScalarMul":
+        return ["scalar", r]
+    if name == "Identity":
+        return ["eye", r]
+    if name == "Diagonal":
+        return ["diag", r]
+    if name == "Tridiagonal":
+        return ["tridiag", r]
+    if name == "Permutation":
+        return ["perm", r]
+    if name == "Householder":
+        return ["house", r]
+    if name in ("Product", "Sum", "Kronecker", "KronSum"):
+        ms = [real_shape(M, depth + 1) for M in op.Ms]
+        if any(m is None for m in ms):
+            return None
+        return [{"Product": "prod", "Sum": "sum", "Kronecker": "kron", "KronSum": "kronsum"}[name]] + ms
+    if name == "BlockDiag":
+        ms = [real_shape(M, depth + 1) for M in op.Ms]
+        if any(m is None for m in ms):
+            return None
+        return ["bdiag", ms, [int(x) for x in op.multiplicities]]
+    if name in ("Transpose", "Adjoint"):
+        inner = real_shape(op.A, depth + 1)
+        if inner is None or inner[0] not in ("dense", "tri", "sparse", "diag", "eye", "scalar", "perm", "tridiag", "house"):
+            return None
+        if inner[0] in ("dense", "tri"):
+            inner = [inner[0], inner[2], inner[1]]
+        elif inner[0] == "sparse":
+            inner = ["sparse", inner[2], inner[1], [[j, i] for i, j in inner[3]]]
+        return ["sum", inner]
+    return None
+
+
+def stored_entries(op, seen=None):
+    """entries of all arrays reachable from an operator (each array once)"""
+    import numpy as np
+    from cola.ops import LinearOperator
+    seen = {} if seen is None else seen
+    stack = [op]
+    while stack:
+        x = stack.pop()
+        if isinstance(x, np.ndarray):
+            seen[id(x)] = x.size if x.base is None else 0 if id(x.base) in seen else x.size
+        elif isinstance(x, LinearOperator):
+            if id(x) not in seen:
+                seen[id(x)] = 0
+                stack.extend(v for k, v in vars(x).items() if k not in ("xnp", "annotations"))
+        elif isinstance(x, (tuple, list)):
+            stack.extend(x)
+        elif isinstance(x, dict):
+            stack.extend(x.values())
+        elif hasattr(x, "tocoo") and hasattr(x, "data"):
+            seen[id(x)] = int(x.data.size) * 3
+    return seen
+
+
+def lean_models(cases, broken=None):
+    """answers of lean/DriverC19.lean by case id.  NEVER raises on a changed tree: when the driver (or one of the modules it
+    imports) no longer builds / runs, the failure is recorded in `broken` and {} is returned — the callers then fall back to
+    `py_model` for rows / cols / leaf storage, so that the search for a concrete densifying call still runs."""
     import oracle
-    return oracle.run_driver(cases, nproc=min(4, max(1, len(cases) // 8)), driver="DriverC19.lean")
+    try:
+        rc, out = common.lake_build(["ColaVerif.DriverLib", "ColaVerif.Model.RuleSkeleton"])
+        if rc != 0:
+            raise RuntimeError("the modules DriverC19.lean imports do not build:\n" + out[-1500:])
+        ans = oracle.run_driver(cases, nproc=min(4, max(1, len(cases) // 8)), driver="DriverC19.lean")
+        bad = [a for a in ans.values() if "rows" not in a]
+        if bad:
+            raise RuntimeError(f"DriverC19 answered {len(bad)} of {len(cases)} cases with an error: {json.dumps(bad[0])[:400]}")
+        return ans
+    except Exception as ex:  # noqa: BLE001  (driver does not elaborate, stale object files, time-out, …)
+        if broken is not None:
+            broken.append({"stage": "Lean driver DriverC19.lean (shape model) unavailable — judged with the Python mirror of rows/cols/leafStorage",
+                           "detail": f"{type(ex).__name__}: {str(ex)[-1500:]}"})
+        return {}
+
+
+def py_model(e, b):
+    """fallback when the Lean driver is unavailable: rows, cols, leaf storage from the expression (no allocs / rule skeleton)"""
+    n = size_of(e)
+    return {"rows": n, "cols": n, "vol": n, "leaf": leaf_storage(e), "inScope": True, "wf": True, "square": True,
+            "allocs": None, "rules": None, "fallback": True}
+
+
+def failing_theorems(gate_err):
+    """names of the theorems at the error positions of a lake / lean output (file:line:col: error …)"""
+    import re
+    names = []
+    for m in re.finditer(r"(ColaVerif/[\w/]+\.lean):(\d+):(\d+):\s*error", gate_err or ""):
+        path, line = os.path.join(common.LEAN_DIR, m.group(1)), int(m.group(2))
+        try:
+            src = open(path).read().split("\n")
+        except OSError:
+            continue
+        for k in range(min(line, len(src)) - 1, -1, -1):
+            t = re.match(r"\s*(?:private\s+)?(?:theorem|lemma|def|example)\s+(\S+)?", src[k])
+            if t:
+                nm = f"{t.group(1) or 'example'} ({m.group(1)}:{line})"
+                if nm not in names:
+                    names.append(nm)
+                break
+    return names
 
 
 def judge(z, cname, call, pres, res, lean, n, b):
-    """-> (status, detail): status ∈ ok | violation | error"""
+    """IMMEDIATE judgement (no model needed): -> (status, detail): status ∈ ok | violation | error.
+    A call that materialises an array with ≥ n²/4 entries, or whose peak reaches a quarter of the dense n × n matrix, is a
+    failing input whatever the models say.  The judgement against the Lean bound follows in `judge_model`."""
     import numpy as np
     out = res["out"]
     itemsize = 8
     if out is not None and hasattr(out, "dtype"):
         itemsize = max(8, int(np.dtype(out.dtype).itemsize))
-    bound_entries = (lean["rows"] + lean["cols"]) * b + lean["leaf"]   # right-hand side of C19_matmat_rows_cols
-    bound_bytes = SLACK * itemsize * bound_entries + PY_ALLOWANCE
     big = [d for d in res["dens"] if d[1][0] * (d[1][1] if len(d[1]) > 1 else 1) * 4 >= n * n]
-    detail = {"peak_bytes": res["peak"], "bound_bytes": bound_bytes, "bound_entries": bound_entries, "itemsize": itemsize,
-              "ratio_peak_to_model": round(res["peak"] / (itemsize * bound_entries), 3),
+    detail = {"peak_bytes": res["peak"], "itemsize": itemsize,
               "dense_n2_bytes": n * n * itemsize, "wall_ms": round(res["wall"] * 1e3, 2),
               "densified": [[w, list(s)] for w, s in res["dens"]][:12]}
     if res["err"]:
@@ -547,11 +771,53 @@ def judge(z, cname, call, pres, res, lean, n, b):
         detail["densified_shape"] = list(big[0][1])
         detail["why"] = f"{big[0][0]} of shape {big[0][1]} (≥ n²/4 entries, n = {n}) during a call that has a structural rule"
         return "violation", detail
-    if res["peak"] > bound_bytes:
-        detail["why"] = (f"peak additional memory {res['peak']} B exceeds {SLACK} × itemsize × ((rows + cols)·b + leaf storage) + allowance = {bound_bytes} B "
-                         f"(n = {n}, b = {b}, leaf storage = {lean['leaf']}; a dense n × n array has {n * n * itemsize} B)")
+    if res["peak"] * 4 >= n * n * 8:
+        detail["why"] = (f"peak additional memory {res['peak']} B is at least a quarter of a dense n × n float64 matrix "
+                         f"({n * n * 8} B, n = {n}) during a call that has a structural rule")
         return "violation", detail
     return "ok", detail
+
+
+def judge_model(rec, lean, lean_res):
+    """judgement against the bound computed by the Lean definitions.  Sets bound_entries / bound_bytes /
+    ratio_peak_to_model in `rec`; returns None or the reason why the call is a failing input."""
+    n, b, itemsize = rec["n"], rec["b"], rec["itemsize"]
+    fn = rec.get("fn")
+    allowance = PY_ALLOWANCE + NUMPY_BUFFERS
+    how = None
+    if lean.get("fallback") or lean.get("peak") is None:
+        # the Lean driver is unavailable: the blanket bound of round 1 on the Python mirror of rows / cols / leaf storage
+        model = SLACK * ((lean["rows"] + lean["cols"]) * b + lean["leaf"])
+        how = "blanket"
+    elif fn is None:
+        model = lean["peak"] + (2 * n * b if rec["call"].startswith("X @ A") else 0)
+        how = "peakMM(A, b)" + (" + 2·n·b" if rec["call"].startswith("X @ A") else "")
+    else:
+        cost = lean["rules"][fn]["cost"]
+        if rec.get("applied") and lean_res is None:
+            # result operator outside the shape language: round 1's blanket bound on top of the rule cost
+            model = cost + SLACK * ((lean["rows"] + lean["cols"]) * b + lean["leaf"])
+            how = "ruleCost + blanket (result operator outside the shape language)"
+        else:
+            model = cost + (lean_res["peak"] if lean_res is not None else 0)
+            how = "ruleCost(f, A)" + (" + peakMM(result, b)" if lean_res is not None else "")
+    rec["model_entries"], rec["model_how"] = model, how
+    rec["bound_entries"] = model
+    rec["bound_bytes"] = itemsize * model + allowance
+    rec["ratio_peak_to_model"] = round(max(rec["peak_bytes"] - allowance, 0) / max(itemsize * model, 1), 3)
+    rec["ratio_raw"] = round(rec["peak_bytes"] / max(itemsize * model, 1), 3)
+    if rec["status"] != "ok":
+        return None
+    if rec["peak_bytes"] > rec["bound_bytes"]:
+        return (f"peak additional memory {rec['peak_bytes']} B exceeds itemsize × [{how}] + allowance = {itemsize} × {model} + {allowance} "
+                f"= {rec['bound_bytes']} B (n = {n}, b = {b}; a dense n × n array has {rec['dense_n2_bytes']} B)")
+    # what the result holds beyond the arrays of A must fit into the rule cost
+    if fn is not None and rec.get("result_extra_entries") is not None and not lean.get("fallback"):
+        cost = lean["rules"][fn]["cost"]
+        if rec["result_extra_entries"] > cost:
+            return (f"the result operator holds {rec['result_extra_entries']} entries that are not arrays of A; the rule cost model "
+                    f"Op.ruleCost {fn} allows {cost}")
+    return None
 
 
 # ------------------------------------------------------------------------------------------
@@ -564,15 +830,15 @@ def run_one(ctx, T, m, S, fam, probe, CT, z, cname, pres, lean_by_b, bld, stats,
     A = z.get("_A")
     if A is None:
         A = z["_A"] = bld.build(e)
-        z["_V"] = np.random.default_rng([bld.seed, 77]).standard_normal((n, 3))
+        z["_V"] = np.random.default_rng([bld.seed, 77]).standard_normal((n, max(BS)))
     if warm and not z.get("_warm", {}).get((cname, pres)):
         te = tiny(e)
         tA = z.get("_tA")
         if tA is None:
             tA = z["_tA"] = bld.build(te, "tiny")
-            z["_tV"] = np.ones((size_of(te), 3))
+            z["_tV"] = np.ones((size_of(te), max(BS)))
         try:
-            call["run"](tA, alg_f() if alg_f else None, z["_tV"])
+            make_thunk(call, cname, tA, alg_f() if alg_f else None, z["_tV"], {})()
         except Exception:  # noqa: BLE001  (the warm-up result is irrelevant)
             pass
         z.setdefault("_warm", {})[(cname, pres)] = True
@@ -580,25 +846,50 @@ def run_one(ctx, T, m, S, fam, probe, CT, z, cname, pres, lean_by_b, bld, stats,
     if cname.startswith(("A @ X", "X @ A")):
         V = np.ascontiguousarray(z["_V"][:, :b])
     alg = alg_f() if alg_f else None
-    res = measure(probe, lambda: call["run"](A, alg, V), A)
+    hold = {}
+    res = measure(probe, make_thunk(call, cname, A, alg, V, hold), A)
     lean = lean_by_b[b]
     status, detail = judge(z, cname, call, pres, res, lean, n, b)
+    # the shape tree of the operator that was applied (rule families) — for the model judgement after the stream
+    res_tree, applied, extra = None, False, None
+    if call["fn"] is not None and status == "ok":
+        rop = hold.get("op")
+        if rop is None and call.get("shadow") is not None:
+            try:
+                rop = call["shadow"](A, alg_f() if alg_f else None)
+            except Exception:  # noqa: BLE001
+                rop = None
+        if rop is not None:
+            applied = True
+            try:
+                res_tree = real_shape(rop)
+                mine = stored_entries(A)
+                theirs = stored_entries(rop)
+                extra = int(sum(v for k, v in theirs.items() if k not in mine))
+            except Exception:  # noqa: BLE001
+                res_tree = None
     problems, chain = ([], [])
-    if call["fn"] is not None:
-        problems, chain = chain_check(T, m, S, fam, res["rules"])
+    if call["fn"] is not None and fam:
+        try:
+            problems, chain = chain_check(T, m, S, fam, res["rules"])
+        except Exception as ex:  # noqa: BLE001  (a rule / class outside the regenerated tables)
+            problems, chain = [f"rule-chain comparison failed: {type(ex).__name__}: {str(ex)[:200]}"], []
     rec = {"operator": show(e), "expr": e, "n": n, "call": cname, "alg": pres, "b": b, "status": status,
-           "chain": chain, **detail}
+           "chain": chain, "fn": call["fn"], "applied": applied, "result_tree": res_tree, "result_extra_entries": extra,
+           "result_class": type(hold.get("op")).__name__ if hold.get("op") is not None else None, **detail}
     # model-side consistency (not failing inputs by themselves)
     model_issues = []
-    if call["fn"] is None and cname.startswith("A @"):
+    if call["fn"] is None and cname.startswith("A @") and lean.get("allocs") is not None:
         tot = sum(lean["allocs"]) * detail["itemsize"] + PY_ALLOWANCE + NUMPY_BUFFERS
         rec["model_total_bytes"] = tot
         if res["peak"] > tot:
             model_issues.append(f"measured peak {res['peak']} B exceeds the model's TOTAL allocation {tot} B: `allocs` misses an allocation")
-    if call["fn"] is not None:
+    if call["fn"] is not None and lean.get("rules") is not None:
         rl = lean["rules"][call["fn"]]
         if not rl["has"]:
             model_issues.append(f"rule skeleton: hasRule {call['fn']} is false for this operator, the harness table schedules it as structural")
+        if not rl["deep"]:
+            model_issues.append(f"rule skeleton: deepRule {call['fn']} is false for this operator (hypothesis of theorem C19_rule_cost)")
         lim = max([d[0] * d[1] for d in rl["dens"]] + [n * b] + [x * x for x in leaf_sizes(e)])
         for w, s in res["dens"]:
             sz = s[0] * (s[1] if len(s) > 1 else 1)
@@ -614,11 +905,37 @@ def run_one(ctx, T, m, S, fam, probe, CT, z, cname, pres, lean_by_b, bld, stats,
     return rec
 
 
+def model_pass(records, lean_of, broken):
+    """second driver batch: Op.peakMM of the shape trees of the RESULT operators; then the judgement of every record
+    against the Lean bound.  -> records that became failing inputs"""
+    trees = {}
+    for r in records:
+        if r.get("result_tree") is not None and not r.get("directed"):
+            trees.setdefault(json.dumps([r["result_tree"], r["b"]]), len(trees))
+    cases = [{"id": i, "op": json.loads(k)[0], "b": json.loads(k)[1]} for k, i in trees.items()]
+    ans = lean_models(cases, broken) if cases else {}
+    newly = []
+    for r in records:
+        if r.get("directed") or r["status"] == "error":
+            continue
+        lr = None
+        if r.get("result_tree") is not None:
+            lr = ans.get(trees[json.dumps([r["result_tree"], r["b"]])])
+            if lr is not None and not (lr.get("inScope") and lr.get("wf")):
+                r.setdefault("model_issues", []).append(f"result operator tree outside inScope/wf: {json.dumps(r['result_tree'])[:200]}")
+                lr = None
+        why = judge_model(r, lean_of(r), lr)
+        if why:
+            r["status"], r["why"] = "violation", why
+            newly.append(r)
+    return newly
+
+
 def leaf_sizes(e):
     t = e[0]
-    if t == "dense":
+    if t in ("dense", "tri", "sparse"):
         return [e[1]]
-    if t in ("diag", "eye", "scalar"):
+    if t in ("diag", "eye", "scalar", "tridiag", "perm", "house"):
         return []
     if t == "bdiag":
         return [s for x in e[1] for s in leaf_sizes(x)]
@@ -627,26 +944,144 @@ def leaf_sizes(e):
     return [s for x in e[1:] for s in leaf_sizes(x)]
 
 
+# ------------------------------------------------------------------------------------------
+# counterexample-guided search: when the translator reports lattice cases that are EXPECTED (the function has a rule for the
+# kind) but do not reach a structural rule — i.e. exactly the cases on which theorem C19_dispatch_<f> no longer checks — the
+# public call form of each such case is executed on operators of the zoo of that kind, with several VALUES per argument class
+# (the lattice is about classes; which branch of a rule runs may depend on the value: pow(K, 2) is a lazy product, pow(K, 10)
+# is apply_unary), and judged like every other call.
+# ------------------------------------------------------------------------------------------
+def domain_values(m, dom, label):
+    import numpy as np
+    if dom == "NUM":
+        vals = {"int": [2, -1, -2, 10, 0], "float": [0.5, -0.5, 2.5], "float64": [np.float64(0.5), np.float64(-1.5)]}.get(label)
+        if vals:
+            return vals
+    if dom == "FN":
+        return [np.exp] if label == "ufunc" else [_plain_square]
+    for e in m.dom[dom]:
+        if e["label"] == label and e.get("make"):
+            return [e["make"]()]
+    return []
+
+
+def _plain_square(x):
+    return x * x
+
+
+def top_kind_name(A):
+    return type(A).__name__.split("[")[0]
+
+
+def directed_search(ctx, T, m, S, fam, probe, Z, bld, failing, stats, lean_all, limit=MAX_REPORTS, budget_s=240):
+    """-> (records, tried).  `failing`: the translator's list of expected-but-not-reached lattice cases."""
+    import itertools
+    import numpy as np
+    t0 = time.time()
+    forms = {fo["name"]: fo for fo in m.forms}
+    recs, tried, found = [], 0, 0
+    seen = set()
+    for fc in failing:
+        fo = forms.get(fc.get("form"))
+        if fo is None or found >= limit:
+            continue
+        kpos = [j for j, d in enumerate(fo["doms"]) if d == "K"]
+        if len(kpos) != 1:
+            continue
+        kind = fc["labels"][kpos[0]]
+        cands = [(zi, z) for zi, z in enumerate(Z) if kind in (top_kind_name(z.get("_A0") or _build_once(z, bld)), )]
+        for zi, z in cands[:3]:
+            if found >= limit or time.time() - t0 > budget_s:
+                break
+            A = z["_A0"]
+            n = z["n"]
+            V = np.random.default_rng([bld.seed, 77]).standard_normal((n, max(BS)))
+            choices = []
+            for j, (d, lab) in enumerate(zip(fo["doms"], fc["labels"])):
+                choices.append([A] if j == kpos[0] else domain_values(m, d, lab))
+            if any(not c for c in choices):
+                continue
+            for vals in itertools.product(*choices):
+                key = (fo["name"], zi, tuple(repr(v) if not hasattr(v, "shape") or v is A else "A" for v in vals))
+                if key in seen or found >= limit or time.time() - t0 > budget_s:
+                    continue
+                seen.add(key)
+                argtxt = ", ".join("A" if v is A else (type(v).__name__ + "()" if hasattr(v, "__dict__") and not callable(v) else
+                                                       getattr(v, "__name__", repr(v))) for v in vals)
+                cname = f"{fo['name']}  with ({argtxt})"
+
+                def thunk(vals=vals):
+                    out = fo["call"](*vals)
+                    outs = out if isinstance(out, (tuple, list)) else [out]
+                    res = None
+                    for o in outs:
+                        if hasattr(o, "_matmat") or (hasattr(o, "shape") and hasattr(o, "__matmul__") and not hasattr(o, "dtype")):
+                            res = o @ V[:, 0]
+                    return res if res is not None else out
+                # warm-up on the tiny operator of the same classes (dispatch caches, class creation)
+                try:
+                    tA = z.get("_tA") or bld.build(tiny(z["expr"]), "tiny")
+                    z["_tA"] = tA
+                    tout = fo["call"](*[tA if v is A else v for v in vals])
+                    for o in (tout if isinstance(tout, (tuple, list)) else [tout]):
+                        if hasattr(o, "_matmat"):
+                            o @ np.ones(size_of(tiny(z["expr"])))
+                except Exception:  # noqa: BLE001
+                    pass
+                res = measure(probe, thunk, A)
+                tried += 1
+                lean = (lean_all.get(zi * 100 + 1) if lean_all else None) or py_model(z["expr"], 1)
+                status, detail = judge(z, cname, None, fc["labels"], res, lean, n, 1)
+                stats["evaluations"] += 1
+                stats["distinct"].add((skeleton(z["expr"]), "directed:" + fo["name"], tuple(fc["labels"])))
+                rec = {"operator": show(z["expr"]), "expr": z["expr"], "n": n, "call": cname, "alg": "/".join(fc["labels"]), "b": 1,
+                       "status": status, "chain": [f"{nm}#{i}" for nm, i, _a in res["rules"]], "directed": True,
+                       "lattice_case": {k: fc[k] for k in ("fn", "form", "labels", "conds", "chain") if k in fc},
+                       "form": fo["name"], "labels": fc["labels"],
+                       "values": [None if v is A else (type(v).__name__ if hasattr(v, "__dict__") and not callable(v) else
+                                                        getattr(v, "__name__", None) or repr(v)) for v in vals],
+                       "model_issues": [], **detail}
+                recs.append(rec)
+                if status == "violation":
+                    found += 1
+    return recs, tried
+
+
+def _build_once(z, bld):
+    if z.get("_A0") is None:
+        z["_A0"] = bld.build(z["expr"])
+    return z["_A0"]
+
+
 def replay_payload(rec):
     return {k: rec[k] for k in ("operator", "expr", "n", "call", "alg", "b", "peak_bytes", "bound_bytes", "dense_n2_bytes",
-                                "densified", "chain", "why", "densified_shape", "error", "model_issues") if k in rec}
+                                "densified", "chain", "why", "densified_shape", "error", "model_issues", "directed", "form", "labels", "values",
+                                "lattice_case") if k in rec}
 
 
 def run(ctx):
     t0 = time.time()
     broken = []
     # (a) translator on the current working tree, in a fresh interpreter
-    rc, so, se = common.sh(["/venv/bin/python", TRANSLATOR, "--quiet"], cwd=common.ROOT, timeout=900)
-    if rc != 0:
-        common.violation(ctx, {"broken": "translator dump_structural.py failed on the current tree: the rule classification cannot be regenerated",
-                               "detail": (so + se)[-3000:]}, no_input=True)
-        common.write_evidence(ctx, None, {"evaluations": 0, "distinct_nontrivial": 0, "broken": [{"stage": "translator", "detail": (so + se)[-3000:]}]})
-        return
-    tsum = json.loads(so.strip().split("\n")[-1])
+    translator_ok = True
+    try:
+        rc, so, se = common.sh(["/venv/bin/python", TRANSLATOR, "--quiet"], cwd=common.ROOT, timeout=900)
+        if rc != 0:
+            raise RuntimeError((so + se)[-3000:])
+        tsum = json.loads(so.strip().split("\n")[-1])
+    except Exception as ex:  # noqa: BLE001
+        # the rule tables of the current tree cannot be regenerated (a hint outside the resolver model, a rule the AST reader
+        # cannot follow, …): the dispatch-level theorems then speak about a STALE table — not shown to hold for this tree.  The
+        # measured stream still runs (without the rule-chain comparison) and looks for a concrete densifying call.
+        translator_ok = False
+        tsum = {"failing": [], "n_failing": 0, "functions": 0, "cases": 0, "expected": 0, "structural_rules": 0,
+                "forwarding_rules": 0, "generic_rules": 0}
+        broken.append({"stage": "translator dump_structural.py failed on the current tree: the rule classification cannot be regenerated "
+                                "(theorems C19_dispatch_*, C19_skeleton_* are about a stale table)", "detail": str(ex)[-3000:]})
     t_translate = time.time() - t0
     # (b) Lean gate
     gate, gate_err = None, None
-    if not ctx.replay:
+    if not ctx.replay and translator_ok:
         try:
             gate = common.lean_gate(ctx, MODULE)
         except common.LeanGateError as ex:
@@ -660,18 +1095,31 @@ def run(ctx):
     d = os.path.dirname(TRANSLATOR)
     if d not in sys.path:
         sys.path.insert(0, d)
-    T = importlib.import_module("dump_structural")
-    m, S, fam = T.analyse()
+    try:
+        T = importlib.import_module("dump_structural")
+    except Exception:  # noqa: BLE001  (cola itself does not import on this tree)
+        import traceback
+        common.violation(ctx, {"broken": "`import cola` / the translator module fails on the current tree: nothing of C19 can be shown or searched",
+                               "detail": traceback.format_exc()[-3000:], "earlier": broken}, no_input=True)
+        common.write_evidence(ctx, gate, {"evaluations": 0, "distinct_nontrivial": 0, "broken": broken})
+        return
+    try:
+        if not translator_ok:
+            raise RuntimeError("skipped: the translator failed in its own interpreter")
+        m, S, fam = T.analyse()
+    except Exception as ex:  # noqa: BLE001
+        import traceback
+        if translator_ok:
+            broken.append({"stage": "translator analysis inside the check process", "detail": traceback.format_exc()[-2000:]})
+        m, S, fam = None, None, {}
     import numpy as np  # noqa: F401
     CT = call_table()
     bld = Builder(ctx.seed)
-    rc, out = common.lake_build(["ColaVerif.Model.RuleSkeleton"])
-    if rc != 0:
-        raise RuntimeError("Model/RuleSkeleton.lean (needed by DriverC19.lean) does not build:\n" + out[-2000:])
     tracemalloc.start()
     probe = Probe(T, m, fam)
     stats = {"evaluations": 0, "distinct": set(), "nontrivial": set()}
     records, reported = [], 0
+    directed_info = None
     try:
         if ctx.replay:
             rp = json.load(open(ctx.replay))
@@ -681,10 +1129,22 @@ def run(ctx):
             e = to_tuple(rp["expr"])
             bld = Builder(rp.get("seed", ctx.seed))
             z = {"expr": e, "flags": set(rp.get("flags", [])), "n": size_of(e)}
-            lean = lean_models([{"id": b, "op": shape_tree(e), "b": b} for b in (1, 3)])
+            if rp.get("directed"):
+                recs, _tried = directed_search(ctx, T, m, S, fam, probe, [z], bld, [rp["lattice_case"]], stats, {}, limit=1)
+                hit = [r for r in recs if r["status"] == "violation" and r.get("values") == rp.get("values")] or \
+                    [r for r in recs if r["status"] == "violation"]
+                print(json.dumps({"replayed": f"{rp['call']} on {show(e)}", "calls_tried": len(recs),
+                                  "status": "violation" if hit else "ok", "why": hit[0].get("why") if hit else None}))
+                if hit:
+                    common.violation(ctx, dict(replay_payload(hit[0]), flags=sorted(z["flags"]), replay_of=ctx.replay))
+                return
+            la = lean_models([{"id": b, "op": shape_tree(e), "b": b} for b in BS], broken)
+            lean = {b: la.get(b) or py_model(e, b) for b in BS}
             rec = run_one(ctx, T, m, S, fam, probe, CT, z, rp["call"], rp["alg"], lean, bld, stats)
+            model_pass([rec], lambda r: lean[r["b"]], broken)
             print(json.dumps({"replayed": f"{rp['call']} [{rp['alg']}] on {show(e)}", "status": rec["status"],
-                              "peak_bytes": rec["peak_bytes"], "bound_bytes": rec["bound_bytes"], "why": rec.get("why"),
+                              "peak_bytes": rec["peak_bytes"], "bound_bytes": rec.get("bound_bytes"), "model": rec.get("model_how"),
+                              "why": rec.get("why"),
                               "densified": rec["densified"][:4], "chain": rec["chain"]}))
             if rec["status"] == "violation":
                 common.violation(ctx, dict(replay_payload(rec), flags=sorted(z["flags"]), replay_of=ctx.replay))
@@ -695,30 +1155,36 @@ def run(ctx):
             Z.sort(key=lambda z: z["n"])
         cases = []
         for zi, z in enumerate(Z):
-            for b in (1, 3):
-                cases.append({"id": zi * 10 + b, "op": shape_tree(z["expr"]), "b": b})
-        lean_all = lean_models(cases)
+            for b in BS:
+                cases.append({"id": zi * 100 + b, "op": shape_tree(z["expr"]), "b": b})
+        lean_all = lean_models(cases, broken)
         t_lean = time.time() - t0 - t_translate - t_gate
         for zi, z in enumerate(Z):
             if reported >= MAX_REPORTS:
                 break   # enough failing inputs; a densifying tree is slow to run through
-            lean = {b: lean_all[zi * 10 + b] for b in (1, 3)}
+            lean = {b: lean_all.get(zi * 100 + b) or py_model(z["expr"], b) for b in BS}
             e = z["expr"]
             gc.collect()
             A = z["_A"] = bld.build(e)
-            z["_V"] = np.random.default_rng([bld.seed, 77]).standard_normal((z["n"], 3))
+            z["_V"] = np.random.default_rng([bld.seed, 77]).standard_normal((z["n"], max(BS)))
             # the Lean shape functions against the real operator
             l1 = lean[1]
             shape_issues = []
-            if not (l1["inScope"] and l1["wf"] and l1["square"]):
+            if l1.get("fallback"):
+                pass
+            elif not (l1["inScope"] and l1["wf"] and l1["square"]):
                 shape_issues.append(f"Lean: inScope/wf/squareLeaves = {l1['inScope']}/{l1['wf']}/{l1['square']}")
-            if (l1["rows"], l1["cols"]) != tuple(int(x) for x in A.shape):
+            if l1.get("fallback"):
+                pass
+            elif (l1["rows"], l1["cols"]) != tuple(int(x) for x in A.shape):
                 shape_issues.append(f"Lean rows × cols {l1['rows']} × {l1['cols']} vs real shape {A.shape}")
-            if not (l1["leaf"] == real_leaf_storage(A) == leaf_storage(e)):
+            if not l1.get("fallback") and not (l1["leaf"] == real_leaf_storage(A) == leaf_storage(e)):
                 shape_issues.append(f"Lean leafStorage {l1['leaf']} vs real Σ dense leaves {real_leaf_storage(A)} vs expression {leaf_storage(e)}")
-            for b in (1, 3):
-                if max(lean[b]["allocs"]) > lean[b]["rows"] * b + lean[b]["leaf"]:
+            for b in BS:
+                if lean[b].get("allocs") and max(lean[b]["allocs"]) > lean[b]["rows"] * b + lean[b]["leaf"]:
                     shape_issues.append(f"allocs {lean[b]['allocs']} exceeds rows·b + leaf — contradicts theorem C19_matmat")
+                if lean[b].get("peak") is not None and lean[b]["peak"] > lean[b]["lvl"] * lean[b]["rows"] * b + lean[b]["leaf"]:
+                    shape_issues.append(f"peakMM {lean[b]['peak']} exceeds lvl·rows·b + leaf — contradicts theorem C19_matmat_peak")
             if shape_issues:
                 broken.append({"stage": "Lean shape model vs real operator", "operator": show(e), "issues": shape_issues})
             for cname, call in CT.items():
@@ -729,17 +1195,40 @@ def run(ctx):
                         break
                     rec = run_one(ctx, T, m, S, fam, probe, CT, z, cname, pres, lean, bld, stats)
                     rec["flags"] = sorted(z["flags"])
+                    rec["zi"] = zi
                     records.append({k: v for k, v in rec.items() if k != "expr"} | {"expr": e})
                     if rec["status"] == "violation":
                         common.violation(ctx, dict(replay_payload(rec), flags=sorted(z["flags"])))
                         reported += 1
             for k in ("_A", "_V", "_tA", "_tV"):
                 z.pop(k, None)
+        # counterexample-guided search on the lattice cases the dispatch theorems no longer cover
+        if fam and tsum.get("failing") and reported < MAX_REPORTS:
+            drecs, dtried = directed_search(ctx, T, m, S, fam, probe, Z, bld, tsum["failing"], stats, lean_all,
+                                            limit=MAX_REPORTS - reported)
+            directed_info = {"lattice_cases": len(tsum["failing"]), "calls_tried": dtried,
+                             "violations": sum(1 for r in drecs if r["status"] == "violation")}
+            for rec in drecs:
+                records.append(rec)
+                if rec["status"] == "violation":
+                    common.violation(ctx, dict(replay_payload(rec), flags=[], expr=rec["expr"]))
+                    reported += 1
+            for z in Z:
+                for k in ("_A0", "_tA"):
+                    z.pop(k, None)
     finally:
         probe.restore()
         tracemalloc.stop()
+    # judgement against the bounds computed by the Lean definitions (second driver batch: the result operators)
+    if records and not ctx.replay:
+        def lean_of(r):
+            return lean_all.get(r["zi"] * 100 + r["b"]) or py_model(r["expr"], r["b"])
+        for r in model_pass(records, lean_of, broken):
+            if reported < 2 * MAX_REPORTS:
+                common.violation(ctx, dict(replay_payload(r), flags=r.get("flags", [])))
+                reported += 1
     t_run = time.time() - t0 - t_translate - t_gate
-    errors = [r for r in records if r["status"] == "error"]
+    errors = [r for r in records if r["status"] == "error" and not r.get("directed")]
     viol = [r for r in records if r["status"] == "violation"]
     issues = [r for r in records if r["model_issues"]]
     if errors:
@@ -751,52 +1240,74 @@ def run(ctx):
     if tsum.get("n_failing"):
         broken.append({"stage": "translator: expected lattice cases that do not reach a structural rule", "count": tsum["n_failing"],
                        "first": tsum["failing"][:6]})
+    unchecked = failing_theorems(gate_err)
     if broken and not viol:
-        common.violation(ctx, {"broken": [b["stage"] for b in broken], "detail": broken}, no_input=True)
+        common.violation(ctx, {"broken": [b["stage"] for b in broken],
+                               "theorems_that_no_longer_check": unchecked,
+                               "what": ("the property is no longer shown to hold: " + (", ".join(unchecked) or "see detail") +
+                                        "; the measured stream (and the counterexample-guided search on the uncovered lattice cases) "
+                                        "found no call that densifies"),
+                               "directed_search": directed_info, "detail": broken}, no_input=True)
     # (d) evidence
-    ok = [r for r in records if r["status"] == "ok"]
-    ratios = sorted(r["ratio_peak_to_model"] for r in ok)
+    ok = [r for r in records if r["status"] == "ok" and r.get("bound_bytes")]
+    ratios = sorted(r["ratio_raw"] for r in ok)
     by_call = {}
     for r in ok:
-        by_call.setdefault(r["call"], []).append(r["ratio_peak_to_model"])
+        by_call.setdefault(r["call"], []).append(r["ratio_raw"])
     samples = []
-    for r in sorted(ok, key=lambda r: -r["ratio_peak_to_model"])[:4] + ok[::max(1, len(ok) // 8)][:8]:
-        samples.append({k: r[k] for k in ("operator", "n", "call", "alg", "b", "peak_bytes", "bound_bytes", "dense_n2_bytes",
-                                          "ratio_peak_to_model", "wall_ms", "chain", "densified")})
+    for r in sorted(ok, key=lambda r: -r["ratio_raw"])[:4] + ok[::max(1, len(ok) // 8)][:8]:
+        samples.append({k: r[k] for k in ("operator", "n", "call", "alg", "b", "peak_bytes", "bound_bytes", "dense_n2_bytes", "model_how",
+                                          "model_entries", "ratio_raw", "wall_ms", "chain", "densified")})
     cov = {
         "evaluations": stats["evaluations"],
         "distinct_nontrivial": len(stats["nontrivial"]),
         "distinct": len(stats["distinct"]),
         "rule": ("distinct = (operator structure without sizes, public call, algorithm presence) triples measured; non-trivial = the "
                  "operator has n ≥ 256 (all have n² ≥ 1000 × factor storage, checked when the zoo is built): a dense n × n "
-                 "materialisation (n² entries) is far outside the judged bound 8 × itemsize × (2·n·b + leaf storage) + 64 KiB — the measured factor is reported as dense_over_bound_min"),
+                 "materialisation (n² entries) is far outside the judged bound itemsize × [Op.peakMM | Op.ruleCost + Op.peakMM(result)] + 256 KiB — the measured factor is reported as dense_over_bound_min"),
         "operators": [{"operator": show(z["expr"]), "n": z["n"], "factor_storage": z["factor_storage"], "n2_over_storage": round(z["ratio"])}
                       for z in (Z if not ctx.replay else [])],
         "calls": sorted(CT),
         "peak_over_model_entries": {"max": ratios[-1] if ratios else None, "median": ratios[len(ratios) // 2] if ratios else None,
-                                    "judged_limit": SLACK},
+                                    "judged_limit": 1.0,
+                                    "note": "raw ratio measured peak / (itemsize × Lean bound), WITHOUT the 256 KiB allowance; above 1 only where the bound is smaller than the allowance"},
         "max_ratio_by_call": {k: max(v) for k, v in sorted(by_call.items())},
-        "dense_over_bound_min": round(min((r["dense_n2_bytes"] / r["bound_bytes"] for r in records), default=0), 1),
+        "model_dominated": (lambda big: {
+            "rule": "records whose Lean bound is at least 4 × the fixed allowance (256 KiB): there the comparison is about the model, not the allowance",
+            "count": len(big), "max_peak_over_model": max((r["ratio_raw"] for r in big), default=None),
+            "median_peak_over_model": sorted(r["ratio_raw"] for r in big)[len(big) // 2] if big else None,
+            "top": [{k: r[k] for k in ("operator", "call", "alg", "peak_bytes", "model_entries", "model_how", "ratio_raw")}
+                    for r in sorted(big, key=lambda r: -r["ratio_raw"])[:5]]})(
+            [r for r in ok if r["itemsize"] * r["model_entries"] >= 4 * (PY_ALLOWANCE + NUMPY_BUFFERS)]),
+        "dense_over_bound_min": round(min((r["dense_n2_bytes"] / r["bound_bytes"] for r in records if r.get("bound_bytes")), default=0), 1),
+        "judged_by": {k: sum(1 for r in records if r.get("model_how") == k) for k in sorted({r.get("model_how") for r in records if r.get("model_how")})},
+        "result_classes_outside_shape_language": sorted({r["result_class"] for r in records if r.get("applied") and r.get("result_tree") is None
+                                                         and r.get("result_class")}),
         "stopped_early_after_violations": bool(records) and len(viol) >= MAX_REPORTS,
         "violations_found": len(viol), "errors": len(errors), "model_issues": len(issues),
         "lattice": {k: tsum[k] for k in ("functions", "cases", "expected", "structural_rules", "forwarding_rules", "generic_rules")},
         "samples": samples,
         "wall_time_ms_total_calls": round(sum(r["wall_ms"] for r in records), 1),
         "timing_s": {"translator": round(t_translate, 1), "lean_gate": round(t_gate, 1), "runtime_tie": round(t_run, 1)},
-        "model_bound_source": "rows, leafStorage, allocs, dens computed by the Lean definitions (lake env lean --run DriverC19.lean) on the shape tree of every operator",
+        "model_bound_source": "rows, leafStorage, allocs, peakMM, lvl, ruleCost, deepRule, dens computed by the Lean definitions (lake env lean --run DriverC19.lean) on the shape tree of every operator and of every result operator",
         "trusted_base_extra": [
             "harness/translators/dump_structural.py: AST classification of the rules (attribute whitelist ALLOWED_ATTRS, FAMILY, STRUCTURED are part of the statement); checked against the running code by the rule-chain log",
             "tracemalloc reports numpy's data buffers (numpy registers them in its tracemalloc domain); LAPACK work space is not traced",
             "NumPy copy/view semantics assumed in Model/Cost.lean (reshape of a moved view copies, astype copies, += in place), covered by 'Σ allocs ≥ measured peak'",
         ],
     }
+    if directed_info:
+        cov["directed_search"] = directed_info
+    if unchecked:
+        cov["theorems_that_no_longer_check"] = unchecked
     if broken:
         cov["broken"] = broken
     common.write_evidence(ctx, gate, cov, assumptions=[
         "X @ A is judged only where cola's own code is matrix-free on the NumPy backend: operators with an explicit _rmatmat (Dense, Diagonal, Sum, Product of those) and SelfAdjoint-annotated operators (conjugation shortcut through _matmat); the default _rmatmat of the other kinds goes through xnp.linear_transpose, which on this image is the harness shim (f(I)ᵀ @ X), not cola code",
         "the forwarding analysis looks at the operator argument only: what a forwarding rule does with the RESULT of the callee is covered by the runtime tie, not by the dispatch-level theorem",
-        "pow is exercised with non-integer exponents (sqrt, isqrt, pow(·, 0.5)); integer exponents are lazy products / inv",
-        "peak memory is judged with the fixed slack 8 (simultaneously live arrays) and a 64 KiB allowance for Python objects; IEEE values of the results are not judged here (C06–C11)",
+        "peak memory is judged against the Lean live-set model Op.peakMM (A @ X; measured/model = 1.00 at b = 16) and Op.ruleCost + Op.peakMM of the result operator (rule families), plus a FIXED allowance of 256 KiB = 64 KiB Python objects + 3 numpy ufunc iteration buffers of 8192 elements (measured: `d[:, None] * X` allocates one such buffer besides its result); IEEE values of the results are not judged here (C06–C11)",
+        "constants of Op.ruleCost (cf = dense copies of a FACTOR made by the generic rule, ownW = linear-size vectors per member made by a structural rule) are read off the source of the rules (doc comment in Model/RuleSkeleton.lean) and are upper bounds; LAPACK work space is not traced",
+        "the shape tree of a RESULT operator is read off the real object by class (TriangularInv is given the cost class of a Triangular product, Transpose / Adjoint of a leaf that of a one-term Sum); result classes outside the language fall back to the blanket bound of round 1 and are listed in the evidence",
     ])
     print(json.dumps({"evaluations": stats["evaluations"], "distinct_nontrivial": len(stats["nontrivial"]), "violations": len(viol),
                       "errors": len(errors), "model_issues": len(issues), "max_ratio": ratios[-1] if ratios else None,
